@@ -69,6 +69,25 @@ theorem invalid_never_counts_gpg (C : CryptoFns) (auth : List PStr) (data : Byte
        (unhex (strOf (entryField (ps! "signature") sig))) = false) : ¬ Counts C true auth data k sig := by
   rintro ⟨_, _, h3⟩; simp at h3; rw [h] at h3; exact absurd h3.2 (by simp)
 
+/-- **the model's per-entry case split agrees with the declarative notion**: an entry is classified `counts` exactly when it counts (canonical key, authorized,
+shape of the mode, primitive accepts) — and the loop never fails on an entry (`error` does not occur).  The driver reports this class for every entry of
+every generated envelope; the harness compares it, entry by entry, with its independent oracle. -/
+theorem entryClass_counts_iff (C : CryptoFns) (gpg : Bool) (auth : List PStr) (data : Bytes) (k : PStr) (sig : J) :
+    (entryClass C gpg auth data k sig = .counts ↔ Counts C gpg auth data k sig) ∧ entryClass C gpg auth data k sig ≠ .error := by
+  unfold entryClass
+  rw [verifyEntry_eq]
+  by_cases h : Counts C gpg auth data k sig
+  · simp [h, dictSet]
+  · simp only [h, if_false]
+    constructor
+    · constructor
+      · intro hc
+        repeat' split at hc
+        all_goals cases hc
+      · intro hc; exact False.elim hc
+    · repeat' split
+      all_goals simp
+
 /-- no key contributes more than once — not even under two spellings: the counted keys are pairwise distinct as *byte strings* -/
 theorem counted_keys_distinct_bytes (C : CryptoFns) (gpg : Bool) (auth : List PStr) (data : Bytes) (entries : List (PStr × J)) (thr : Nat)
     (h : ThresholdMet C gpg auth data entries thr) :
